@@ -145,9 +145,12 @@ class C41(Prop):
                   "every reported chain is genuine and ends with the macro; completeness: no chain is missed, by a closure "
                   "argument over the visited set; termination within recursion depth = number of macros, proved by a "
                   "measure, so no fuel hypothesis remains). For the interpreter model (coq/model/Interp.v): a definition replaces "
-                  "the registry entry of its name and no other, a call of an undefined name and a call the search refuses "
-                  "fail. 'The body a call runs is the most recently defined one' and 'an undefined call fails' are decided "
-                  "on the real PInterpreter by a Coq monitor over the observed node states; 'once per call, lines in order' "
+                  "the registry entry of its name and no other, ONLY the execution of a not yet registered definition line changes the "
+                  "registry, in every state of every run every entry is a Macro line of the entry's name, so a call either fails "
+                  "(undefined name, refused by the search) or runs the children of the definition registered last under the "
+                  "called name. 'The body a call runs is the most recently defined one' and 'an undefined call fails' and 'once per call' (completed calls never outnumber started runs) are decided "
+                  "on the real PInterpreter by a Coq monitor over the observed node states -- 'once per call' is refuted for two "
+                  "calls of one macro that overlap in time (known finding); 'lines in order' "
                   "rests on the interpreter correspondence; 'a started macro may not be edited' belongs to C01.")
     LEVEL_NOTE = ("Theorems are about coq/model/MacroSearch.v (the search) and coq/model/Interp.v (registry, failing calls). Tie: generated methods are parsed by the real parser; the macro table "
                   "(per macro the calls of its body in source order, nested blocks/watches/alarms included, nested "
@@ -251,6 +254,23 @@ class C41(Prop):
         if obs["kind"] == "run":
             return f"run,error={int(obs['error'])},ended={int(obs['ended'])}"
         return f"fun,macros={len(obs['table'])},recursive={sum(1 for r in obs['result'] if r)}"
+
+    def classify(self, case, obs):
+        """known: two Call macro lines of one name executing at the same time (both started, neither completed nor failed,
+        in one view): the second joins the run of the first, so the body runs once for two calls"""
+        if obs.get("kind") != "interp":
+            return None
+        tab = obs["table"]
+        calls = [(k, t["kind"][1]) for k, t in enumerate(tab) if t["kind"][0] == "KCallMacro"]
+        for v in obs["views"]:
+            nd = v["nodes"]
+            running = {}
+            for c, nm in calls:
+                if nd[c][0] and not nd[c][1] and not nd[c][2]:
+                    running[nm] = running.get(nm, 0) + 1
+            if any(k >= 2 for k in running.values()):
+                return "C41-concurrent-calls-of-one-macro-share-one-run"
+        return None
 
     def size(self, case):
         return len(case["lines"])
